@@ -32,11 +32,34 @@ type payload struct {
 	Modules map[string]string    `json:"modules,omitempty"`
 	Inputs  map[string]*lang.Val `json:"inputs,omitempty"`
 	Stdlib  bool                 `json:"stdlib,omitempty"` // use the real stdlib module map instead of the host module
+	DataMod bool                 `json:"datamod,omitempty"` // compile with the function-free data module and decode WITHOUT a module map
+}
+
+// dataModule is a builtin module without functions: bytecode using it can be
+// decoded without a module map, in which case Decode has to repair the
+// bool/undefined singletons inside its (nested) values itself.
+func dataModule() *tengo.ModuleMap {
+	mm := tengo.NewModuleMap()
+	mm.AddBuiltinModule("datamod", map[string]tengo.Object{
+		"n":     &tengo.Int{Value: 3},
+		"yes":   tengo.TrueValue,
+		"no":    tengo.FalseValue,
+		"undef": tengo.UndefinedValue,
+		"flags": &tengo.Array{Value: []tengo.Object{tengo.TrueValue, tengo.FalseValue, tengo.UndefinedValue}},
+		"frozen": &tengo.ImmutableArray{Value: []tengo.Object{tengo.FalseValue, &tengo.Array{Value: []tengo.Object{tengo.TrueValue}}}},
+		"nested": &tengo.Map{Value: map[string]tengo.Object{"ok": tengo.TrueValue, "deep": &tengo.Array{Value: []tengo.Object{
+			&tengo.ImmutableMap{Value: map[string]tengo.Object{"off": tengo.FalseValue, "u": tengo.UndefinedValue}}}}}},
+		"err": &tengo.Error{Value: tengo.TrueValue},
+	})
+	return mm
 }
 
 const budget = 2000000
 
 func moduleMap(p payload) *tengo.ModuleMap {
+	if p.DataMod {
+		return dataModule()
+	}
 	if p.Stdlib {
 		return stdlib.GetModuleMap("math", "text", "enum", "json", "base64", "hex", "rand", "times", "fmt")
 	}
@@ -101,8 +124,12 @@ func check(t ev.TB, test string, p payload, classes []string) {
 		return
 	}
 	nBefore := len(u1.Bytecode.Constants)
+	dm := mm // module map handed to Decode
+	if p.DataMod {
+		dm = nil
+	}
 	// B2: serialization of the fresh bytecode (before anything runs)
-	b2, e2 := roundTrip(u0.Bytecode, mm)
+	b2, e2 := roundTrip(u0.Bytecode, dm)
 	if e2 != nil {
 		ev.Fail(t, test, p, "fresh bytecode does not survive encode/decode: %v\n--- source ---\n%s", e2, clip(p.Source))
 		return
@@ -148,7 +175,7 @@ func check(t ev.TB, test string, p payload, classes []string) {
 		}
 	}
 	// B3: what the CLI runs
-	b3, e3 := roundTrip(u1.Bytecode, mm)
+	b3, e3 := roundTrip(u1.Bytecode, dm)
 	if e3 != nil {
 		ev.Fail(t, test, p, "de-duplicated bytecode does not survive encode/decode: %v\n--- source ---\n%s", e3, clip(p.Source))
 		return
@@ -305,6 +332,27 @@ func TestStdlibPrograms(t *testing.T) {
 		s := strings.ReplaceAll(s, "; ", "\n")
 		t.Run(fmt.Sprint(i), func(t *testing.T) {
 			check(t, "TestStdlibPrograms", payload{Source: s, Stdlib: true}, []string{"stdlib-program"})
+		})
+	}
+}
+
+var dataModPrograms = []string{
+	`m := import("datamod"); a := m.yes == true; b := m.no == false; c := is_undefined(m.undef); d := m.undef == undefined; e := m.n`,
+	`m := import("datamod"); a := m.flags[0] == true; b := m.flags[1] == false; c := m.flags[2] == undefined; d := [m.flags[0] ? 1 : 2, m.flags[1] ? 1 : 2]; e := m.flags == [true, false, undefined]`,
+	`m := import("datamod"); a := m.nested.ok == true; b := m.nested.deep[0].off == false; c := m.nested.deep[0].u == undefined; d := bool(m.nested.deep[0].off)`,
+	`m := import("datamod"); a := m.frozen[0] == false; b := m.frozen[1][0] == true; c := m.frozen == [false, [true]]; d := m.err.value == true`,
+	`f := func() { m := import("datamod"); return [m.yes == true, m.flags[1] == false, m.nested.deep[0].u == undefined] }; r := f(); m2 := import("datamod"); s := m2.flags[0] == import("datamod").yes`,
+}
+
+// TestDecodeWithoutModuleMap: bytecode that embeds a function-free builtin
+// module is decoded with a nil module map; every bool / undefined inside the
+// module's nested values must come back as the singleton (== true etc. are
+// identity comparisons).
+func TestDecodeWithoutModuleMap(t *testing.T) {
+	for i, s := range dataModPrograms {
+		s := strings.ReplaceAll(s, "; ", "\n")
+		t.Run(fmt.Sprint(i), func(t *testing.T) {
+			check(t, "TestDecodeWithoutModuleMap", payload{Source: s, DataMod: true}, []string{"decode-without-module-map"})
 		})
 	}
 }
